@@ -1016,6 +1016,9 @@ func (ds *AnySource) ChangeTriggerState(state *FullTriggerState) error {
 		return fmt.Errorf("got ConfigureTriggers with no valid ChannelIndices")
 	}
 	for _, channelIndex := range state.ChannelIndices {
+		if channelIndex < 0 {
+			return fmt.Errorf("channelIndex %v is negative", channelIndex)
+		}
 		if channelIndex >= ds.nchan {
 			return fmt.Errorf("channelIndex %v is >= ds.nchan %v", channelIndex, ds.nchan)
 		}
